@@ -81,8 +81,11 @@ def _cyclic(d):
     for c in d.cells:
         if c.fill is not None:
             us = c.fill['us'] if 'us' in c.fill else [c.fill['u']]
-            graph.setdefault(c.u, set()).update(v for v in us if v and v != c.u)
+            graph.setdefault(c.u, set()).update(v for v in us if v and (v != c.u or not c.lat))
     state = {}
+
+    if any(u in vs for u, vs in graph.items()):
+        return True
 
     def visit(u):
         if state.get(u) == 1:
